@@ -38,8 +38,8 @@ theorem envOK0 (g : GCtx) (needs : List String) (h : ∀ x ∈ needs, x ∈ g.ad
 theorem norm_eq_of_expr_eq {g : GCtx} {ip : Bool} {t1 t2 : Ty} (h1 : TyGood g ip t1) (h2 : TyGood g ip t2)
     (s1 : ∀ x ∈ tyAdds ip t1, x ∈ g.adds) (s2 : ∀ x ∈ tyAdds ip t2, x ∈ g.adds)
     (he : tyExpr ip t1 = tyExpr ip t2) : normTy g.tps ip t1 = normTy g.tps ip t2 := by
-  obtain ⟨p1, hp1, hq1⟩ := h1.2.2 (env0 g) (envOK0 g _ s1)
-  obtain ⟨p2, hp2, hq2⟩ := h2.2.2 (env0 g) (envOK0 g _ s2)
+  obtain ⟨p1, hp1, hq1, _⟩ := h1.2.2 (env0 g) (envOK0 g _ s1)
+  obtain ⟨p2, hp2, hq2, _⟩ := h2.2.2 (env0 g) (envOK0 g _ s2)
   rw [he, hp2] at hp1
   have : p2 = p1 := by simpa using hp1
   rw [← hq1, ← hq2, this]
@@ -80,11 +80,11 @@ theorem normTy_union (tps : List String) (ip : Bool) (ts : List Ty) :
 
 theorem normUnion_single {ip : Bool} {ms : List Ty} {x : Ty} (h : unionRes ip ms = [x]) :
     normUnion ip ms = x := by
-  unfold normUnion; rw [h]
+  unfold normUnion; rw [h]; rfl
 
 theorem normUnion_many {ip : Bool} {ms : List Ty} (h : ∀ x, unionRes ip ms ≠ [x]) :
     normUnion ip ms = .union (unionRes ip ms) := by
-  unfold normUnion
+  unfold normUnion singleOrUnion
   split
   · next x hx => exact absurd hx (h x)
   · rfl
